@@ -36,7 +36,7 @@ class _RabbitConsumer(ConsumerT):
         self.category = category
         self.server_side_cancel_event = asyncio.Event()
         self._consumer_tag: str | None = None
-        self._delivered_ids: set[str] = set()
+        self._delivered: dict[str, int] = {}  # message id -> delivery tag
         self.__is_paused: bool = False
         self.__is_consuming: bool = False
 
@@ -147,11 +147,11 @@ class _RabbitConsumer(ConsumerT):
                 )
         # reject every other message related to this consumer which is still unsettled,
         # e.g. one that was lost by a cancelled consume() call
-        for id_ in self._delivered_ids:
-            tag = self.broker._id_to_delivery_tag.pop(id_, None)
-            if tag is not None:
+        for id_, tag in self._delivered.items():
+            if self.broker._id_to_delivery_tag.get(id_) == tag:
+                del self.broker._id_to_delivery_tag[id_]
                 rejects.append(self.broker._channel.basic_reject(tag))
-        self._delivered_ids.clear()
+        self._delivered.clear()
         await asyncio.gather(*rejects)
 
     async def on_new_message(self, message: aiormq.abc.DeliveredMessage) -> None:
@@ -214,9 +214,10 @@ class _RabbitConsumer(ConsumerT):
 
         # save delivery tag for the future
         self.broker._id_to_delivery_tag[msg_id] = message.delivery_tag
-        self._delivered_ids.add(msg_id)
-        if len(self._delivered_ids) > 1000:  # forget settled messages  # noqa: PLR2004
-            self._delivered_ids.intersection_update(self.broker._id_to_delivery_tag)
+        self._delivered[msg_id] = message.delivery_tag
+        if len(self._delivered) > 1000:  # forget settled messages  # noqa: PLR2004
+            tags = self.broker._id_to_delivery_tag
+            self._delivered = {i: t for i, t in self._delivered.items() if tags.get(i) == t}
 
         # create a key object and put message in in-memory queue to be picked up soon
         await self.queue.put(
